@@ -1046,6 +1046,15 @@ func (u *Unit) builtinAppend(st *State, fr *Frame, args []Val, resv ssa.Value, p
 		qi := fmt.Sprintf("k!%d", u.freshN)
 		st.assume(fmt.Sprintf("(forall ((%s Int)) (! (=> (and (<= 0 %s) (< %s %s)) (= (select %s (+ %s %s)) (select (select %s %s) (+ %s %s)))) :pattern ((select %s (+ %s %s)))))",
 			qi, qi, qi, l, na, no, qi, h, b, o, qi, na, no, qi))
+		// the same facts as explicit templates (instantiated at index operations and at skolem
+		// indices of quantified goals; solver triggers with arithmetic are unreliable)
+		u.freshN++
+		tj := fmt.Sprintf("qa_j!%d$", u.freshN)
+		st.qfacts = append(append([]qfact(nil), st.qfacts...),
+			qfact{ante: "true", bv: tj, impl: fmt.Sprintf("(=> (and (<= 0 %s) (< %s %s)) (= (select %s (+ %s %s)) (select (select %s %s) (+ %s %s))))", tj, tj, l, na, no, tj, h, b, o, tj)})
+		if !isStr {
+			st.qfacts = append(st.qfacts, qfact{ante: "true", bv: tj, impl: fmt.Sprintf("(=> (and (<= %s %s) (< %s (+ %s %s))) (= (select %s (+ %s %s)) (select (select %s %s) (+ %s (- %s %s)))))", l, tj, tj, l, n, na, no, tj, h, add.Terms[0], add.Terms[1], tj, l)})
+		}
 		// in-place: everything outside [o+l, o+l+n) unchanged
 		st.assume(fmt.Sprintf("(=> (= %s %s) (forall ((%s Int)) (! (=> (or (< %s (+ %s %s)) (>= %s (+ %s %s))) (= (select %s %s) (select (select %s %s) %s))) :pattern ((select %s %s)))))",
 			nb, b, qi, qi, o, l, qi, o, nl, na, qi, h, b, qi, na, qi))
